@@ -16,6 +16,7 @@
 //   rereport  report() as an explicit history operation (the other sections observe every report from an emptied
 //             output buffer): repeated reports interleaved with alloc/free/startChecking/unknown release
 //   resat     one outstanding block, report asked 60 times in a row
+//   many      0..80,100,200,1000 outstanding blocks: reports that fill the 4 KB buffer keep an exact total line
 #include <sanitizer/asan_interface.h>
 #include <string>
 #include <vector>
@@ -47,7 +48,7 @@ namespace {
 // hash bucket (addr % 73) is exactly off. Slots are never reused inside a history; returned blocks and all slack
 // are poisoned, so a stale record that is still followed by the detector is an ASan report.
 constexpr size_t STRIDE = 73 * 16;
-constexpr int NSLOTS = 40;
+constexpr int NSLOTS = 1040;      // histories use a handful; section many keeps up to 1000 blocks outstanding
 constexpr int NBUCK = 3;
 const int BOFF[NBUCK] = {0, 16, 72};
 alignas(64) char g_raw[STRIDE * (NSLOTS + 3)];
@@ -92,7 +93,7 @@ void* arena_realloc(void* mem, size_t size) {
 char* foreign_addr() { return g_base + STRIDE * NSLOTS; }       // bucket 0, never handed out, poisoned
 
 // separately allocated records come from their own pool (addresses irrelevant for hashing)
-constexpr int NNODES = 48;
+constexpr int NNODES = 1048;
 constexpr size_t NODE_CHUNK = 128;
 alignas(64) char g_noderaw[NODE_CHUNK * NNODES];
 unsigned char g_node_state[NNODES];
@@ -634,6 +635,108 @@ void rereport_scenario(vf::Chooser& ch, int depth) {
     if (reports >= 2) vf::count("nontrivial");
     if (vf::want_sample()) vf::sample(h.trace);
 }
+// ------------------------------------------------------------------ many: reports that fill the 4 KB buffer
+// n outstanding blocks (0..80, 100, 200, 1000) of one size, split over the disabled / enabled / checking periods,
+// optionally thinned by freeing every second one. Every report must state the exact number of outstanding blocks of
+// its period in the total line, list only blocks of that set (each at most once, with their own fields) and say
+// "no leaks" iff the set is empty. The entry list may be cut only by the "Too many memory leaks" marker of a full buffer.
+const char TOO_MUCH[] = "\netc etc etc etc. !!!! Too many memory leaks to report. Bailing out\n";
+const int MANY_N[] = {0,1,2,3,4,5,6,7,8,9,10,11,12,13,14,15,16,17,18,19,20,21,22,23,24,25,26,27,28,29,30,31,32,33,34,35,36,37,38,39,40,
+                      41,42,43,44,45,46,47,48,49,50,51,52,53,54,55,56,57,58,59,60,61,62,63,64,65,66,67,68,69,70,71,72,73,74,75,76,77,78,79,80,100,200,1000};
+constexpr int MANY_NN = sizeof MANY_N / sizeof *MANY_N;
+const size_t MANY_SIZE[3] = {1, 17, 100};
+const char* FAMNAME[4] = {"new", "new []", "malloc", "mixed"};
+
+// returns "" or (mode, detail) through sig/detail
+bool many_compare(const char* text, const std::vector<Rec>& recs, MemLeakPeriod p, std::string& mode, std::string& detail, bool& cut, size_t& listed) {
+    cut = false; listed = 0;
+    const char* m = strstr(text, TOO_MUCH);
+    if (!m) {       // nothing cut: the strict comparison of the other sections applies
+        detail = compare_report(text, recs, p);
+        if (detail.empty()) { for (auto& r : recs) if (visible(r, p)) listed++; return true; }
+        mode = detail.find("total line") != std::string::npos ? "report-total-wrong" : detail.find("no leaks") != std::string::npos || detail.find("no-leaks") != std::string::npos ? "report-no-leaks-sentence-wrong" : "report-entry-wrong";
+        return false;
+    }
+    cut = true;
+    std::vector<const Rec*> want; for (auto& r : recs) if (visible(r, p)) want.push_back(&r);
+    if (want.empty()) { mode = "report-no-leaks-sentence-wrong"; detail = "no block is outstanding for the period but the report is a (cut) leak list"; return false; }
+    // the line in which the buffer ran full is incomplete by design: drop it (and an entry whose Memory line it was)
+    std::string body(text, m - text);
+    size_t nl = body.rfind('\n');
+    body.resize(nl == std::string::npos ? 0 : nl + 1);
+    if (body.size() >= sizeof HEADER - 1) {
+        size_t prev = body.size() >= 2 ? body.rfind('\n', body.size() - 2) : std::string::npos;
+        size_t start = prev == std::string::npos ? 0 : prev + 1;
+        if (body.compare(start, 11, "Alloc num (") == 0) body.resize(start);
+    }
+    std::string cleaned = body + (m + sizeof TOO_MUCH - 1);
+    Parsed got = parse_report(cleaned.c_str());
+    if (!got.err.empty()) { mode = "report-malformed"; detail = "cut report malformed (" + got.err + ")"; return false; }
+    if (got.noleaks || !got.has_total) { mode = "report-malformed"; detail = "cut report without a total line"; return false; }
+    listed = got.e.size();
+    if (got.total != (long)want.size()) { mode = "report-total-wrong"; detail = vf::fmt("total line says %ld, %zu blocks outstanding for the period (%zu entries fit into the report before it was cut)", got.total, want.size(), got.e.size()); return false; }
+    std::sort(got.e.begin(), got.e.end());
+    for (size_t i = 0; i < got.e.size(); i++) {
+        const Entry& b = got.e[i];
+        if (i && got.e[i - 1].number == b.number) { mode = "report-entry-wrong"; detail = vf::fmt("alloc num %u listed twice", b.number); return false; }
+        const Rec* a = nullptr; for (auto* r : want) if (r->number == b.number) a = r;
+        if (!a) { mode = "report-entry-wrong"; detail = vf::fmt("alloc num %u listed but not outstanding for the period", b.number); return false; }
+        if ((uintptr_t)a->addr != b.addr || a->size != b.size || a->line != b.line || strcmp(a->file, b.file) || strcmp(ANAME[a->kind], b.type)) {
+            mode = "report-entry-wrong"; detail = vf::fmt("entry fields wrong: listed num=%u size=%lu at %s:%d type '%s', expected size=%zu at %s:%d type '%s'", b.number, b.size, b.file, b.line, b.type, a->size, a->file, a->line, ANAME[a->kind]); return false;
+        }
+    }
+    if (strlen(text) < 3000) { mode = "report-cut-without-need"; detail = vf::fmt("the leak list is cut after %zu of %zu entries although the text has only %zu characters", got.e.size(), want.size(), strlen(text)); return false; }
+    return true;
+}
+
+void many_case(long idx) {
+    static Cfg cfg{"many", 0, 0, 0, {}, {}, false, 0, 0, false, 0, false, false, false};
+    vf::Radix rx(idx);
+    int n = MANY_N[rx.take(MANY_NN)]; size_t size = MANY_SIZE[rx.take(3)]; int fam = (int)rx.take(4); int route = (int)rx.take(3); int split = (int)rx.take(4); int thin = (int)rx.take(2);
+    Cfg c = cfg; c.route = route;
+    History h(c);
+    int d = split == 3 ? n / 4 : 0;                                    // allocated while disabled
+    int k = split == 0 ? 0 : split == 2 ? n - d : (n - d) / 2;          // then k while enabled, the rest while checking
+    h.trace = vf::fmt("n=%d size=%zu family=%s layout=%s: %d blocks while disabled, enable, %d blocks, startChecking, %d blocks%s", n, size, FAMNAME[fam],
+                      route == 0 ? "natural" : route == 1 ? "inline" : "separate", d, k, n - d - k, thin ? ", every second block freed" : "");
+    vf::ctx("alloc");
+    for (int i = 0; i < n; i++) {
+        if (i == d) { h.det.enable(); h.cur = mem_leak_period_enabled; }
+        if (i == d + k) { h.det.startChecking(); h.cur = mem_leak_period_checking; }
+        int kind = fam == 3 ? i % 3 : fam;
+        g_next_boff = BOFF[i % 3];
+        char* p = h.drv.alloc(kind, size, LOCFILE[kind], 100 + i);
+        if (!p) { h.failed("many", "returned-null", "allocation returned NULL"); return; }
+        memset(p, 'a' + i % 26, size);
+        h.add_rec(p, size, kind, LOCFILE[kind], 100 + i, BOFF[i % 3]);
+    }
+    if (g_exhausted) vf::harness_error("arena exhausted");
+    if (thin) {
+        vf::ctx("free");
+        for (int i = n - 1; i >= 0; i--) if (i % 2 == 1) { Rec r = h.recs[i]; h.recs.erase(h.recs.begin() + i); h.drv.release(r.kind, r.addr); }
+    }
+    vf::ctx("observe");
+    if (h.rep.calls) { h.failed("many", "spurious-failure-callback", h.rep.first); return; }
+    { std::string dd = chain_check(h.det); if (!dd.empty()) { h.failed("many", "table-references-released-record", dd); return; } }
+    bool any_cut = false; std::string oc;
+    for (int i = 0; i < 4; i++) {
+        size_t want = 0; for (auto& r : h.recs) if (visible(r, PERIODS[i])) want++;
+        size_t got = h.det.totalMemoryLeaks(PERIODS[i]);
+        if (got != want) { h.failed("many", "total-wrong", vf::fmt("totalMemoryLeaks(%s) = %zu, %zu blocks outstanding for that period", PNAME[i], got, want)); return; }
+        vf::ctx("report");
+        h.det.outputBuffer_.clear();
+        const char* text = h.det.report(PERIODS[i]);
+        std::string mode, detail; bool cut; size_t listed;
+        if (!many_compare(text, h.recs, PERIODS[i], mode, detail, cut, listed)) { h.failed("many", mode.c_str(), vf::fmt("report(%s): ", PNAME[i]) + detail); return; }
+        any_cut |= cut;
+        if (i == 0) oc = vf::fmt("%s size=%zu outstanding=%zu listed=%zu", cut ? "cut" : "full", size, want > 90 ? 99 : want, listed);
+        vf::count("ops");
+    }
+    vf::outcome(oc);
+    if (any_cut) vf::count("nontrivial");
+    if (vf::want_sample()) vf::sample(h.trace);
+}
+
 void resat_case(long idx) {
     static Cfg cfg{"resat", 0, 2, 0, {}, {}, false, 0, 0, false, 0, false, false, false};
     History h(cfg);
@@ -723,6 +826,10 @@ int main(int argc, char** argv) {
         vf::info("rereport.bound", vf::fmt("depth %d over {new(1), free(h), report(all), report(checking), startChecking, free(foreign)}, live<=2, unpruned; the output buffer is never emptied by the harness", d));
         vf::section_dfs("rereport", 2, false, [&](vf::Chooser& ch) { rereport_scenario(ch, d); });
         vf::require_outcomes("rereport", 6);
+        long NM = (long)MANY_NN * 3 * 4 * 3 * 4 * 2;
+        vf::info("many.bound", "n outstanding blocks for n in 0..80,100,200,1000 x size {1,17,100} x family {new,new[],malloc,mixed} x layout {natural,all inline,all separate} x split over periods {all checking; half enabled/half checking; all enabled; quarter disabled + rest halved} x {as allocated, every second block freed}; report of each of the four periods from an emptied buffer; non-trivial = some report filled the 4 KB buffer and was cut");
+        vf::section_index("many", NM, many_case);
+        vf::require_outcomes("many", 40);
         vf::info("resat.bound", "3 kinds x 4 periods: one outstanding block, report(period) asked 60 times in a row");
         vf::section_index("resat", 12, resat_case);
         vf::require_outcomes("resat", 12);
